@@ -62,6 +62,12 @@ def random_config(rng, seed, mode=None, nd=None, dtype=None, maxcap=3000, strat=
         fc = rng.choice([1, 1, 2])
     else:
         n, d, fc = random_rate(rng, maxcap if mode != "contU" else min(maxcap, 2000))
+    if strat is not None and strat % 5 == 2:
+        # the rate stated as a fraction that is not in lowest terms (1000/10, 400/6): numerator and denominator are stored
+        # parameters of the channel, nothing may reduce them behind the user's back
+        kk = rng.choice([2, 6, 10])
+        if n * kk < 2**32 and d * kk <= 10**6:
+            n, d = n * kk, d * kk
     # subdir cadence: a multiple of the file cadence (in ms), at most ~1000 file cadences
     k = rng.choice([1, 2, 3, 5, 10, 60, 1000])
     sc_ms = fc * k
